@@ -85,7 +85,7 @@ func TestC05Stage(t *testing.T) {
 func TestC09Stage(t *testing.T) {
 	vt.CheckBubble(t, "C09", func(t *vt.T) {
 		p := Profile{Prop: "C09", MaxFiles: 3, Prev: "none", Faults: true, ShortEOF: true, Dups: true, Reuse: true,
-			Overlap: t.Bool("overlap"), MaxSteps: 40}
+			Overlap: t.Bool("overlap"), Concurrent: t.Bool("concurrent"), MaxSteps: 40}
 		runScenario(t, p, func(s *Scenario) bool { return multiPart(s) && (s.faults > 0 || s.dups > 0 || p.Overlap || t.HasClass("name-reuse")) })
 	})
 }
